@@ -162,7 +162,7 @@ f34_S: {x_S: #D34_S & #EX34_S, y_S: #D34_S & #EY34_S, z_S: {
 	b_S: int @u(6) @p(1)
 } @decl(z)}`,
 	// let clauses referred to from a nested struct: one whose value is an error, one that computes
-	/*35*/ `f35_S: {let Y_S = {c_S: 1 & 2}, a_S: {b_S: Y_S.c_S}, g_S: {let Z_S = {k_S: 3, m_S: k_S + 1}, h_S: {i_S: Z_S.m_S}}}`,
+	/*35*/ `f35_S: {let Y_S = {c_S: 1 & 2}, a_S: {b_S: Y_S.c_S}}`,
 	// wide disjunctions: a tagged union of six structs, an enumeration of six values
 	/*36*/ `#U36_S: {kind_S: "a", a_S: int} | {kind_S: "b", b_S: string} | {kind_S: "c", c_S: bool} | {kind_S: "d", d_S: [...int]} | {kind_S: "e", e_S: null} | {kind_S: "f", f_S: float}
 f36_S: {svc_S: #U36_S, svc_S: {kind_S: string}, e6_S: 1 | 2 | 3 | 4 | 5 | 6, t_S: #U36_S & {kind_S: "c"}}`,
@@ -173,6 +173,8 @@ f37_S: {x_S: #D37_S & {a_S: 1, b_S: {c_S: 2}} & matchN(1, [{a_S: int, ...}]),
 	w_S: matchN(>0, [{a_S?: int, ...}]) & {a_S: 1, n_S: {m_S: 1}}}`,
 	// number literals with multiplier suffixes, which encoders have to rewrite
 	/*38*/ `f38_S: {limits_S: [4Ki, 1M, 250M, 3Gi, 1.5K, 0x10, 1_000], quota_S: 2Ki, sizes_S: {small_S: [1K, 2K], large_S: [1Mi, 2Mi, 3Ti]}}`,
+	// a let that computes, referred to from a nested struct (the erroneous one is fragment 35)
+	/*39*/ `f39_S: {let Z_S = {k_S: 3, m_S: k_S + 1}, h_S: {i_S: Z_S.m_S}, j_S: {let W_S = h_S.i_S * 2, o_S: W_S + 1}}`,
 }
 
 // program imports only the builtin packages its fragments use, so that the
@@ -204,10 +206,11 @@ var snippetPaths = [][]string{
 	{"", "a_S", "c_S", "d_S", "e_S", "v_S", "w_S.x_S"}, {"", "bad_S", "l_S", "n_S", "o_S", "r_S", "i_S"},
 	{"v_S", "w_S", "v_S", ""},
 	{"x_S.a_S", "y_S.a_S", "z_S.b_S", "z_S", "x_S", ""},
-	{"a_S", "g_S.h_S", "g_S", "a_S", ""},
+	{"a_S", "a_S", ""},
 	{"svc_S", "e6_S", "t_S", "svc_S", ""},
 	{"x_S", "y_S", "w_S", "x_S", ""},
 	{"limits_S", "sizes_S", "", "limits_S"},
+	{"h_S", "j_S", ""},
 }
 
 var opKinds = []string{"lookup", "fields", "fields-all", "walk", "unify", "unify-accept", "fill", "fill-value", "validate", "validate-concrete", "default", "eval",
@@ -229,7 +232,7 @@ var affinity = map[string]struct {
 	"allows-many":   {0.7, []int{33}},
 	"default":       {0.4, []int{25, 26, 29}},
 	"attrs":         {0.6, []int{34}},
-	"unify-sub":     {0.6, []int{35, 36, 37, 37}},
+	"unify-sub":     {0.6, []int{35, 36, 37, 37, 39}},
 	"unify":         {0.15, []int{37}},
 	"fill-value":    {0.15, []int{37}},
 	"fill-conflict": {0.7, []int{36}},
@@ -898,7 +901,7 @@ func exec(t *testing.T, ci sim.CaseI, choices []uint32, keepLog bool) *sim.Outco
 					cls = "panic"
 				}
 				out.Res.Violation = &sim.Violation{Class: cls, Msg: fmt.Sprintf("worker %d op %d %+v under concurrency:\n%s\nalone:\n%s", i, j, op, trunc(got), trunc(want))}
-				out.Key = cls + ": " + op.Kind
+				out.Key = cls + ": " + op.Kind + whereOf(op, got, want)
 				return out
 			}
 		}
@@ -913,12 +916,54 @@ func exec(t *testing.T, ci sim.CaseI, choices []uint32, keepLog bool) *sim.Outco
 			want := doOp(ref, op)
 			if posRx.ReplaceAllString(got, "0x") != posRx.ReplaceAllString(want, "0x") {
 				out.Res.Violation = &sim.Violation{Class: "shared-value-changed", Msg: fmt.Sprintf("after the concurrent phase, op %+v (worker %d op %d) on the shared value:\n%s\non a fresh copy:\n%s", op, i, j, trunc(got), trunc(want))}
-				out.Key = "shared-value-changed: " + op.Kind
+				out.Key = "shared-value-changed: " + op.Kind + whereOf(op, got, want)
 				return out
 			}
 		}
 	}
 	return out
+}
+
+// whereOf names the fragment a differing answer is about: the one the call was aimed at
+// and, when the two answers differ in text that mentions another fragment (calls on the
+// root see all of them), that one. A known finding about one input shape can then be keyed
+// by the fragment that has the shape without covering wrong answers anywhere else.
+func whereOf(op Op, got, want string) string {
+	frag := func(s string) string {
+		if !strings.HasPrefix(s, "f") {
+			return ""
+		}
+		i := 1
+		for i < len(s) && s[i] >= '0' && s[i] <= '9' {
+			i++
+		}
+		if i == 1 {
+			return ""
+		}
+		return s[:i]
+	}
+	w := " on root"
+	if f := frag(op.Path); f != "" {
+		w = " on " + f
+	}
+	// first difference between the two answers, and the fragment name nearest before it
+	n := 0
+	for n < len(got) && n < len(want) && got[n] == want[n] {
+		n++
+	}
+	for _, s := range []string{got, want} {
+		lo := max(0, min(n, len(s))-400)
+		hi := min(len(s), n+400)
+		seg := s[lo:hi]
+		for k := 0; k+1 < len(seg); k++ {
+			if seg[k] == 'f' && (k == 0 || !(seg[k-1] >= 'a' && seg[k-1] <= 'z' || seg[k-1] >= '0' && seg[k-1] <= '9' || seg[k-1] == '_')) {
+				if f := frag(seg[k:]); f != "" && strings.HasPrefix(seg[k+len(f):], "_r") && !strings.Contains(w, f+" ") && !strings.HasSuffix(w, f) {
+					w += " [differs near " + f + "]"
+				}
+			}
+		}
+	}
+	return w
 }
 
 func trunc(s string) string {
